@@ -75,6 +75,7 @@ type c11Sig struct {
 	kind  int
 	ids   []hotstuff.ID
 	parts [][]byte // multi: one per id; bls: one element, the compressed point
+	bfPad int      // bls: zero bytes appended to the participant bitfield (same set, other bytes)
 	how   string   // derivation, for replays
 }
 
@@ -98,6 +99,9 @@ func (s *c11Sig) obj() (hotstuff.QuorumSignature, bool) {
 		var bf crypto.Bitfield
 		for _, id := range s.ids {
 			bf.Add(id)
+		}
+		if s.bfPad > 0 {
+			bf = crypto.BitfieldFromBytes(append(append([]byte(nil), bf.Bytes()...), make([]byte, s.bfPad)...))
 		}
 		o, err := crypto.RestoreBLS12AggregateSignature(s.parts[0], bf)
 		if err != nil {
@@ -167,11 +171,15 @@ func (s *c11Sig) desc() string {
 		}
 		p = append(p, h)
 	}
-	return fmt.Sprintf("%s signers=%v bytes=%v <= %s", k, s.ids, p, s.how)
+	pad := ""
+	if s.bfPad > 0 {
+		pad = fmt.Sprintf(" bitfield padded with %d zero bytes", s.bfPad)
+	}
+	return fmt.Sprintf("%s signers=%v%s bytes=%v <= %s", k, s.ids, pad, p, s.how)
 }
 
 func (s *c11Sig) clone(how string) *c11Sig {
-	r := &c11Sig{kind: s.kind, how: how}
+	r := &c11Sig{kind: s.kind, how: how, bfPad: s.bfPad}
 	r.ids = append(r.ids, s.ids...)
 	for _, p := range s.parts {
 		r.parts = append(r.parts, append([]byte(nil), p...))
@@ -472,6 +480,63 @@ func c11Dedup(s *c11Sig) *c11Sig {
 	if len(r.ids) == len(s.ids) {
 		return nil
 	}
+	return r
+}
+
+// c11LengthModes: changes of one signer's bytes that a lossy serialiser (fixed-size copy, trimming,
+// re-encoding) could hide from whoever identifies the signature by its serialised form.
+var c11LengthModes = []string{"junk1", "junk64", "zeros8", "trunc1", "half", "empty", "zeropad", "leadjunk", "der-longform"}
+
+func c11Length(s *c11Sig, i int, mode string) *c11Sig {
+	if (s.kind != c11Ecdsa && s.kind != c11Eddsa) || i >= len(s.ids) || len(s.parts[i]) < 8 {
+		return nil
+	}
+	b := append([]byte(nil), s.parts[i]...)
+	n := len(b)
+	switch mode {
+	case "junk1":
+		b = append(b, 0x5a)
+	case "junk64":
+		for k := 0; k < 64; k++ {
+			b = append(b, byte(0x30+k))
+		}
+	case "zeros8":
+		b = append(b, make([]byte, 8)...)
+	case "trunc1":
+		b = b[:n-1]
+	case "half":
+		b = b[:n/2]
+	case "empty":
+		b = []byte{}
+	case "zeropad": // a short prefix padded with zeros to the original length
+		for k := n / 2; k < n; k++ {
+			b[k] = 0
+		}
+	case "leadjunk":
+		b = append([]byte{0x00}, b...)
+	case "der-longform": // the same (r,s), outer SEQUENCE length in long form (not canonical DER)
+		if s.kind != c11Ecdsa || b[0] != 0x30 || b[1] >= 0x80 {
+			return nil
+		}
+		b = append([]byte{0x30, 0x81, b[1]}, b[2:]...)
+	default:
+		return nil
+	}
+	if bytes.Equal(b, s.parts[i]) {
+		return nil
+	}
+	r := s.clone(fmt.Sprintf("%s-entry-%d(%s)", mode, i, s.how))
+	r.parts[i] = b
+	return r
+}
+
+// c11PadBitfield: the same BLS participant set written with trailing zero bytes in the bitfield.
+func c11PadBitfield(s *c11Sig, k int) *c11Sig {
+	if s.kind != c11Bls {
+		return nil
+	}
+	r := s.clone(fmt.Sprintf("bitfield+%dzero-bytes(%s)", k, s.how))
+	r.bfPad = s.bfPad + k
 	return r
 }
 
@@ -1300,7 +1365,7 @@ func (w *c11World) alterOp(v *verifOut, o *c11Op) *c11Op {
 	n.batch = c11CloneBatch(o.batch)
 	isBatch := o.op == "batch" || o.op == "aggqc"
 	for try := 0; try < 12; try++ {
-		switch v.rng.Intn(22) {
+		switch v.rng.Intn(25) {
 		case 0: // message
 			if o.op == "verify" {
 				n.msg = c11Msgs[v.rng.Intn(len(c11Msgs))]
@@ -1436,6 +1501,20 @@ func (w *c11World) alterOp(v *verifOut, o *c11Op) *c11Op {
 			}
 			if s != nil {
 				n.sig = s
+				return &n
+			}
+		case 22, 23: // one signer's bytes with another length (junk / zeros appended, truncated, padded, re-encoded)
+			if len(o.sig.ids) >= 1 {
+				if s := c11Length(o.sig, v.rng.Intn(len(o.sig.ids)), c11LengthModes[v.rng.Intn(len(c11LengthModes))]); s != nil {
+					n.sig = s
+					n.alter = "signature-length"
+					return &n
+				}
+			}
+		case 24: // the same BLS participant set, bitfield with trailing zero bytes
+			if s := c11PadBitfield(o.sig, 1+v.rng.Intn(3)); s != nil {
+				n.sig = s
+				n.alter = "bitfield-bytes"
 				return &n
 			}
 		case 10: // fewer signers
@@ -2175,6 +2254,51 @@ func (w *c11World) fields(v *verifOut) {
 	}
 }
 
+// lengths: a genuine verification (remembered), then the same request with each signer's bytes in
+// every altered-length form (resp. for BLS the bitfield with trailing zero bytes), then the genuine
+// one again.  Votes, multi-signatures, QC / TC / partial certificate paths and batches.
+func (w *c11World) lengths(v *verifOut) {
+	a, b, c := w.ids[0], w.ids[1], w.ids[2]
+	m0, view := []byte("ab"), hotstuff.View(5)
+	bb := w.blocks[0].ToBytes()
+	b3 := map[hotstuff.ID][]byte{a: []byte("ab"), b: []byte("c"), c: []byte("a")}
+	bases := []*c11Op{
+		{op: "verify", sig: w.atom(b, m0), msg: m0},
+		{op: "vpc", sig: w.atom(b, bb)},
+		{op: "verify", sig: w.multi(m0, a, b, c), msg: m0},
+		{op: "qc", sig: w.multi(bb, a, b, c)},
+		{op: "tc", sig: w.multi(view.ToBytes(), a, b, c), view: view},
+		{op: "batch", sig: w.batchSig(b3), batch: b3},
+	}
+	for _, base := range bases {
+		for _, capacity := range []int{1, 8} {
+			q := c11NewSeq(w, v, "len", capacity)
+			q.do(base)
+			again := *base
+			again.alter = "same"
+			for i := range base.sig.ids {
+				for _, mode := range c11LengthModes {
+					if s := c11Length(base.sig, i, mode); s != nil {
+						n := *base
+						n.sig, n.alter = s, "signature-length"
+						q.do(&n)
+					}
+				}
+				q.do(&again) // still remembered (or recomputed), still accepted
+			}
+			for _, k := range []int{1, 2, 7} {
+				if s := c11PadBitfield(base.sig, k); s != nil {
+					n := *base
+					n.sig, n.alter = s, "bitfield-bytes"
+					q.do(&n)
+				}
+			}
+			q.do(&again)
+			q.finish()
+		}
+	}
+}
+
 // hibits: a verification with the genuine labels (remembered), then the same signature with one
 // or all signer labels replaced by ids that differ only in high bits (id + m*2^k for every k in
 // 8..31, resp. 8..20 for BLS bitfields), then the genuine one again.  Single signatures,
@@ -2268,6 +2392,7 @@ func TestVerifC11(t *testing.T) {
 		w.hibits(v)
 		w.certs(v)
 		w.fields(v)
+		w.lengths(v)
 		w.concurrent(v, v.Pick(4, 40), 6, v.Pick(12, 40))
 		switch name {
 		case crypto.NameBLS12:
